@@ -449,6 +449,25 @@ func (r *FnRun) frameTerm(st *State, m string, ms *modSpec) Term {
 	return Forall([]Term{a}, Implies(Not(Or(ex...)), Ident(Select(r.arr(st, m), a), Select(r.arr(r.Entry, m), a))))
 }
 
+// entryFrame: every address inside a region that was valid at function entry
+// and that the modifies clause does not cover holds its entry value.
+func (r *FnRun) entryFrame(st *State, m string) Term {
+	env := r.env(r.Entry, r.Entry)
+	env.nm = st
+	ms := r.modSpecOf(env, r.C)
+	if ms.all {
+		return True
+	}
+	a := Term{"a!f", BV(64, false)}
+	var in []Term
+	for _, rg := range r.Entry.regions {
+		if !rg.Fresh {
+			in = append(in, And(rg.Cond, inRanges(a, []modRange{{rg.Base, rg.Size}})))
+		}
+	}
+	return Forall([]Term{a}, Implies(And(Or(in...), Not(ms.mayChange(m, a))), Ident(Select(r.arr(st, m), a), Select(r.arr(r.Entry, m), a))))
+}
+
 func (r *FnRun) frameGoals(o *Outcome) {
 	env := r.env(r.Entry, r.Entry)
 	env.nm = o.St
@@ -466,6 +485,12 @@ func (r *FnRun) frameGoals(o *Outcome) {
 	}
 	for _, m := range allArrays(o.St) {
 		if o.St.mem[m].S == r.arr(r.Entry, m).S {
+			continue
+		}
+		if r.loopHavoc {
+			// a loop havocked memory: the frame is stated over the memory that was
+			// valid at entry (everything else was allocated by this invocation)
+			r.addGoal(o.St, "frame."+m, "entry regions", r.entryFrame(o.St, m), nil)
 			continue
 		}
 		r.addGoal(o.St, "frame."+m, "", r.frameTerm(o.St, m, ms), nil)
